@@ -149,11 +149,16 @@ def check_case(case, res):
             res.case('netlist-rejected')
             return
     # ---- run
+    import copy
+    tree_before = copy.deepcopy(tree)
+    regions = copy.deepcopy(regions)       # the oracle works on its own copy of the description
     try:
         d = Die(tree, netlist)
         err = None
     except Exception as e:  # noqa
         d, err = None, e
+    if tree != tree_before:
+        res.violation('input-altered', case, attrs, 'the caller\'s description is left as it was', repr(tree)[:300])
     if not valid:
         # invalid by less than the comparison tolerance (an overlap / overhang of area < 1e-9*scale^2, e.g. a
         # 1e-6 x 1e-6 corner): below any area tolerance, both answers accepted (DESIGN 3.2)
@@ -220,6 +225,17 @@ def check_case(case, res):
     gotf = sorted((r.center.x, r.center.y, r.shape.w, r.shape.h) for r in d.fixed_regions)
     if wantf != gotf:
         res.violation('fixed-reported', case, attrs, wantf, gotf)
+    # ---- the same description object builds the same die again
+    try:
+        d_again = Die(tree, netlist)
+        again = sorted((r.center.x, r.center.y, r.shape.w, r.shape.h, r.region) for r in
+                       d_again.ground_regions + d_again.specialized_regions + d_again.blockages + d_again.fixed_regions)
+        first = sorted((r.center.x, r.center.y, r.shape.w, r.shape.h, r.region) for r in
+                       d.ground_regions + d.specialized_regions + d.blockages + d.fixed_regions)
+        if again != first:
+            res.violation('second-construction', case, attrs, first, again)
+    except Exception as e:  # noqa
+        res.violation('second-construction', case, attrs, 'the same description is accepted again', f'{type(e).__name__}: {e}')
     # ---- reading the die does not change it: query everything, then compare the region lists again
     def snapshot():
         return [(cls, r.center.x, r.center.y, r.shape.w, r.shape.h, r.region, r.fixed)
